@@ -145,7 +145,7 @@ def gen_job(seed, profile="general"):
     # loads ---------------------------------------------------------------------------------
     nsteps = r.choice([1, 1, 2])
     case = r.choice(["uniaxial", "uniaxial", "biaxial", "shear", "custom", "patch"])
-    if fkind == "Axi" and case in ("biaxial", "shear"):
+    if fkind == "Axi" and case in ("biaxial", "shear", "patch"):
         case = "uniaxial"
     if dim == 2 and case == "biaxial" and fkind == "Mixed3":
         case = "uniaxial"
